@@ -737,3 +737,237 @@ class CombineTarget(WireTarget):
             res['undecided'].append('unsupported construct: %s' % u)
         res['seconds'] = round(time.time() - t0, 3)
         return res
+
+
+# ---------------------------------------------------------------------------------
+# operators.py: the superoperator helpers every other module builds on (row-major vectorisation: vec(A rho B) = (A (x) B^T) vec(rho))
+class OperatorsTarget:
+    """real oqupy.operators helpers on free matrix symbols; required (grouped legs (a,b) -> (c,d)):
+        left_super(A)            A[a,c] d[b,d]
+        right_super(B)           d[a,c] B[d,b]
+        left_right_super(A, B)   A[a,c] B[d,b]
+        commutator(O)            O[a,c] d[b,d] - d[a,c] O[d,b]
+        acommutator(O)           O[a,c] d[b,d] + d[a,c] O[d,b]"""
+
+    def __init__(self, prop, replay_func='superoperator_helpers'):
+        self.prop, self.name, self.qualname = prop, 'ops/superoperator-helpers', 'operators.left_right_super'
+        self.replay_func = replay_func
+
+    def replay(self, ob):
+        return {'func': self.replay_func, 'inputs': {'obligation': ob['name']}}
+
+    def run(self, timeout_ms, tier):
+        from pyvc.tnnorm import TSum, sum_equal, new_label
+        t0 = time.time()
+        repo = Repo()
+        res = {'target': self.name, 'function': 'operators.left_super/right_super/left_right_super/commutator/acommutator', 'property': self.prop,
+               'paths': 0, 'obligations': [], 'undecided': [], 'errors': [], 'flags': ['FREE_TENSOR_SYMBOLS'], 'lib_pure': [],
+               'lib_used': ['numpy.kron, numpy.identity, .T as einsum terms'], 'functions_extra': []}
+        R = Registry()
+        tnnorm.install(R)
+
+        def term(factors, left, right):
+            return TArr(factors, [('flat',) + tuple(left), ('flat',) + tuple(right)])
+
+        def spec(name):
+            a, b, c, d = [new_label() for _ in range(4)]
+            L = lambda s: term([(s, (a, c))], (a, b), (c, b))           # S[a,c] delta[b,d]: b and d identified
+            Rr = lambda s: term([(s, (d, b))], (a, b), (a, d))          # delta[a,c] S[d,b]
+            if name == 'left_super':
+                return L('A')
+            if name == 'right_super':
+                return Rr('A')
+            if name == 'left_right_super':
+                return term([('A', (a, c)), ('B', (d, b))], (a, b), (c, d))
+            if name == 'commutator':
+                return TSum([(1, L('A')), (-1, Rr('A'))])
+            return TSum([(1, L('A')), (1, Rr('A'))])
+        def spec2(name):
+            # two-site helpers: index order ((row_1, col_1), (row_2, col_2)) on both sides
+            a1, b1, c1, d1, a2, b2, c2, d2 = [new_label() for _ in range(8)]
+            out = lambda l1, l2, r1, r2: TArr.__new__(TArr)
+            def mk(factors, left, right):
+                return TArr(factors, [('flat', ('flat',) + left[0], ('flat',) + left[1]), ('flat', ('flat',) + right[0], ('flat',) + right[1])])
+            acts_left = mk([('A', (a1, c1)), ('B', (a2, c2))], ((a1, b1), (a2, b2)), ((c1, b1), (c2, b2)))
+            acts_right = mk([('A', (d1, b1)), ('B', (d2, b2))], ((a1, b1), (a2, b2)), ((a1, d1), (a2, d2)))
+            if name == 'cross_commutator':
+                return TSum([(1, acts_left), (-1, acts_right)])
+            if name == 'cross_acommutator':
+                return TSum([(1, acts_left), (1, acts_right)])
+            return mk([('A', (a1, c1)), ('B', (d1, b1)), ('C', (a2, c2)), ('D', (d2, b2))], ((a1, b1), (a2, b2)), ((c1, d1), (c2, d2)))
+        for name, nargs in (('cross_commutator', 2), ('cross_acommutator', 2), ('cross_left_right_super', 4)):
+            fref = repo.resolve('operators.' + name)
+            if fref is None:
+                res['undecided'].append('contract target missing: operators.%s' % name)
+                continue
+            res['functions_extra'].append(describe(fref))
+            Vv.reset_fresh()
+            ip = Interp(repo, R, [], solver_timeout_ms=timeout_ms)
+            try:
+                got = ip.call(fref, [TArr.sym(n_, 2) for n_ in 'ABCD'[:nargs]], {})
+                want = spec2(name)
+                ok = sum_equal(got, want)
+                info = {'computed': repr(got), 'required': repr(want)}
+            except Unsupported as u:
+                res['undecided'].append('unsupported construct in operators.%s: %s' % (name, u))
+                continue
+            except PyRaise as pr:
+                ok, info = False, {'exception': pr.exc.typ}
+            res['obligations'].append({'name': 'ops/%s' % name, 'backend': 'tnnorm', 'flags': ['FREE_TENSOR_SYMBOLS'], 'info': info, 'model': info,
+                                       'pc_sat': 'sat', 'result': 'discharged' if ok else 'refuted', 'seconds': 0.0})
+            res['paths'] += 1
+        for name, nargs in (('left_super', 1), ('right_super', 1), ('left_right_super', 2), ('commutator', 1), ('acommutator', 1)):
+            fref = repo.resolve('operators.' + name)
+            if fref is None:
+                res['undecided'].append('contract target missing: operators.%s' % name)
+                continue
+            res['functions_extra'].append(describe(fref))
+            Vv.reset_fresh()
+            ip = Interp(repo, R, [], solver_timeout_ms=timeout_ms)
+            try:
+                got = ip.call(fref, [TArr.sym('A', 2), TArr.sym('B', 2)][:nargs], {})
+                want = spec(name)
+                ok = sum_equal(got, want)
+                info = {'computed': repr(got), 'required': repr(want)}
+            except Unsupported as u:
+                res['undecided'].append('unsupported construct in operators.%s: %s' % (name, u))
+                continue
+            except PyRaise as pr:
+                ok, info = False, {'exception': pr.exc.typ}
+            res['obligations'].append({'name': 'ops/%s' % name, 'backend': 'tnnorm', 'flags': ['FREE_TENSOR_SYMBOLS'], 'info': info, 'model': info,
+                                       'pc_sat': 'sat', 'result': 'discharged' if ok else 'refuted', 'seconds': 0.0})
+            res['paths'] += 1
+        res['seconds'] = round(time.time() - t0, 3)
+        return res
+
+
+class LiouvillianTarget:
+    """real system._liouvillian(H, [g], [A]) on free matrix symbols:
+        L = -i (H (x) 1 - 1 (x) H^T) + g ( A (x) conj(A)  - 1/2 (A^+ A) (x) 1 - 1/2 1 (x) (A^+ A)^T )
+    i.e. L vec(rho) = vec( -i[H, rho] + g (A rho A^+ - 1/2 {A^+ A, rho}) )  in the row-major vectorisation"""
+
+    def __init__(self, prop):
+        self.prop, self.name, self.qualname = prop, 'ops/lindbladian', 'system._liouvillian'
+
+    def replay(self, ob):
+        return {'func': 'lindbladian', 'inputs': {'obligation': ob['name']}}
+
+    def run(self, timeout_ms, tier):
+        from pyvc.tnnorm import TSum, Coef, sum_equal, new_label
+        t0 = time.time()
+        repo = Repo()
+        res = {'target': self.name, 'function': self.qualname, 'property': self.prop, 'paths': 0, 'obligations': [], 'undecided': [], 'errors': [],
+               'flags': ['FREE_TENSOR_SYMBOLS'], 'lib_pure': [], 'lib_used': ['numpy.kron, numpy.identity, numpy.dot, .T, .conjugate() as einsum terms']}
+        fref = repo.resolve(self.qualname)
+        if fref is None:
+            res['undecided'].append('contract target missing: %s' % self.qualname)
+            return res
+        res['function_info'] = describe(fref)
+        R = Registry()
+        tnnorm.install(R)
+        Vv.reset_fresh()
+        ip = Interp(repo, R, [], solver_timeout_ms=timeout_ms)
+        ip.tsum_scalars = True
+
+        def term(factors, left, right):
+            return TArr(factors, [('flat',) + tuple(left), ('flat',) + tuple(right)])
+        a, b, c, d, x = [new_label() for _ in range(5)]
+        want = TSum([
+            (Coef(-1j), term([('H', (a, c))], (a, b), (c, b))),
+            (Coef(1j), term([('H', (d, b))], (a, b), (a, d))),
+            (Coef(1, ('gamma',)), term([('A', (a, c)), ('A*', (b, d))], (a, b), (c, d))),
+            (Coef(-0.5, ('gamma',)), term([('A*', (x, a)), ('A', (x, c))], (a, b), (c, b))),
+            (Coef(-0.5, ('gamma',)), term([('A*', (x, d)), ('A', (x, b))], (a, b), (a, d)))])
+        try:
+            got = ip.call(fref, [TArr.sym('H', 2), [Real('gamma')], [TArr.sym('A', 2)]], {})
+            ok = sum_equal(got, want)
+            info = {'computed': repr(got), 'required': repr(want)}
+            res['obligations'].append({'name': 'ops/lindbladian', 'backend': 'tnnorm', 'flags': ['FREE_TENSOR_SYMBOLS'], 'info': info, 'model': info,
+                                       'pc_sat': 'sat', 'result': 'discharged' if ok else 'refuted', 'seconds': 0.0})
+            res['paths'] = 1
+        except Unsupported as u:
+            res['undecided'].append('unsupported construct: %s' % u)
+        except PyRaise as pr:
+            res['obligations'].append({'name': 'unexpected-exception/' + pr.exc.typ, 'backend': 'tnnorm', 'flags': [], 'info': {}, 'model': {}, 'pc_sat': 'sat',
+                                       'result': 'refuted', 'seconds': 0.0})
+        res['seconds'] = round(time.time() - t0, 3)
+        return res
+
+
+class ChainAssemblyTarget:
+    """real SystemChain.add_site_hamiltonian / add_site_dissipation / add_nn_hamiltonian / add_nn_dissipation on free matrix
+    symbols, starting from zero Liouvillians: what is ADDED equals the documented generator (row-major vectorisation; two-site
+    index order ((row_1, col_1), (row_2, col_2)))."""
+
+    def __init__(self, prop):
+        self.prop, self.name, self.qualname = prop, 'chain/assembly', 'system.SystemChain.add_nn_hamiltonian'
+
+    def replay(self, ob):
+        return {'func': 'two_site_chain_vs_dense', 'inputs': {'obligation': ob['name']}}
+
+    def run(self, timeout_ms, tier):
+        from pyvc.tnnorm import TSum, Coef, sum_equal, new_label
+        t0 = time.time()
+        repo = Repo()
+        res = {'target': self.name, 'function': 'system.SystemChain.add_site_hamiltonian/add_site_dissipation/add_nn_hamiltonian/add_nn_dissipation',
+               'property': self.prop, 'paths': 0, 'obligations': [], 'undecided': [], 'errors': [], 'flags': ['FREE_TENSOR_SYMBOLS'], 'lib_pure': [],
+               'lib_used': ['numpy.kron, numpy.identity, numpy.dot, @, .T, .conjugate() as einsum terms'], 'functions_extra': []}
+        R = Registry()
+        tnnorm.install(R)
+
+        def one(f, l, r):
+            return TArr(f, [('flat',) + tuple(l), ('flat',) + tuple(r)])
+
+        def two(f, l, r):
+            return TArr(f, [('flat', ('flat',) + l[0], ('flat',) + l[1]), ('flat', ('flat',) + r[0], ('flat',) + r[1])])
+
+        def specs():
+            a, b, c, d, x = [new_label() for _ in range(5)]
+            a1, b1, c1, d1, a2, b2, c2, d2, x1, x2 = [new_label() for _ in range(10)]
+            g = ('gamma',)
+            return {
+                'add_site_hamiltonian': TSum([(Coef(-1j), one([('H', (a, c))], (a, b), (c, b))), (Coef(1j), one([('H', (d, b))], (a, b), (a, d)))]),
+                'add_site_dissipation': TSum([(Coef(1, g), one([('A', (a, c)), ('A*', (b, d))], (a, b), (c, d))),
+                                              (Coef(-0.5, g), one([('A*', (x, a)), ('A', (x, c))], (a, b), (c, b))),
+                                              (Coef(-0.5, g), one([('A*', (x, d)), ('A', (x, b))], (a, b), (a, d)))]),
+                'add_nn_hamiltonian': TSum([(Coef(-1j), two([('A', (a1, c1)), ('B', (a2, c2))], ((a1, b1), (a2, b2)), ((c1, b1), (c2, b2)))),
+                                            (Coef(1j), two([('A', (d1, b1)), ('B', (d2, b2))], ((a1, b1), (a2, b2)), ((a1, d1), (a2, d2))))]),
+                # gamma ( (A(x)B) rho (A(x)B)^+ - 1/2 { (A(x)B)^+ (A(x)B), rho } )
+                'add_nn_dissipation': TSum([
+                    (Coef(1, g), two([('A', (a1, c1)), ('A*', (b1, d1)), ('B', (a2, c2)), ('B*', (b2, d2))], ((a1, b1), (a2, b2)), ((c1, d1), (c2, d2)))),
+                    (Coef(-0.5, g), two([('A*', (x1, a1)), ('A', (x1, c1)), ('B*', (x2, a2)), ('B', (x2, c2))], ((a1, b1), (a2, b2)), ((c1, b1), (c2, b2)))),
+                    (Coef(-0.5, g), two([('A*', (x1, d1)), ('A', (x1, b1)), ('B*', (x2, d2)), ('B', (x2, b2))], ((a1, b1), (a2, b2)), ((a1, d1), (a2, d2))))]),
+            }
+        cases = {'add_site_hamiltonian': ('_site_liouvillians', lambda: [1, TArr.sym('H', 2)], {}),
+                 'add_site_dissipation': ('_site_liouvillians', lambda: [1, TArr.sym('A', 2)], {'gamma': Real('gamma')}),
+                 'add_nn_hamiltonian': ('_nn_liouvillians', lambda: [1, TArr.sym('A', 2), TArr.sym('B', 2)], {}),
+                 'add_nn_dissipation': ('_nn_liouvillians', lambda: [1, TArr.sym('A', 2), TArr.sym('B', 2)], {'gamma': Real('gamma')})}
+        want = specs()
+        for name, (field, mkargs, kw) in cases.items():
+            fref = repo.resolve('system.SystemChain.' + name)
+            if fref is None:
+                res['undecided'].append('contract target missing: SystemChain.%s' % name)
+                continue
+            res['functions_extra'].append(describe(fref))
+            Vv.reset_fresh()
+            ip = Interp(repo, R, [], solver_timeout_ms=timeout_ms)
+            ip.tsum_scalars = True
+            obj = mkobj(repo, 'system.SystemChain', _hs_dims=[tnnorm.TDim('d%d' % i) for i in range(3)],
+                        _site_liouvillians=[TSum([]) for _ in range(3)], _nn_liouvillians=[TSum([]) for _ in range(2)])
+            try:
+                ip.call(fref, [obj] + mkargs(), kw)
+                got = obj.fields[field][1]
+                untouched = all(len(x.items) == 0 for k_, x in enumerate(obj.fields['_site_liouvillians'] + obj.fields['_nn_liouvillians'])
+                                if x is not got)
+                ok = sum_equal(got, want[name]) and untouched
+                info = {'added': repr(got), 'required': repr(want[name]), 'other entries untouched': untouched}
+            except Unsupported as u:
+                res['undecided'].append('unsupported construct in SystemChain.%s: %s' % (name, u))
+                continue
+            except PyRaise as pr:
+                ok, info = False, {'exception': pr.exc.typ}
+            res['obligations'].append({'name': 'chain/%s' % name, 'backend': 'tnnorm', 'flags': ['FREE_TENSOR_SYMBOLS'], 'info': info, 'model': info,
+                                       'pc_sat': 'sat', 'result': 'discharged' if ok else 'refuted', 'seconds': 0.0})
+            res['paths'] += 1
+        res['seconds'] = round(time.time() - t0, 3)
+        return res
